@@ -13,8 +13,6 @@ CONSTANTS
  DevEpsHalf = FALSE
  DevSigmaInverted = FALSE
  DevSelfFromFirst = FALSE
- KnownPairs = FALSE
- KnownTbl = FALSE
 INVARIANT Mark
 POSTCONDITION Accepted
 CHECK_DEADLOCK FALSE
